@@ -87,7 +87,12 @@ impl Operator for DistinctOperator {
                 return Ok(None);
             };
 
-            let mut builder = DataChunkBuilder::with_capacity(&self.output_schema, 2048);
+            // Capacity covers the whole input chunk: returning early on a full builder would
+            // drop the rest of an input chunk that holds more than 2048 new rows.
+            let mut builder = DataChunkBuilder::with_capacity(
+                &self.output_schema,
+                chunk.row_count().max(2048),
+            );
 
             for row in chunk.selected_indices() {
                 let key = match &self.distinct_columns {
